@@ -68,12 +68,13 @@ Definition incref (t : ftab) (k : N) : ftab :=
   | None => t
   end.
 
-(* DecRef: refcount--; if it is still > 0 return; else delete(conn.fidpool, fid.fid); FidDestroy *)
+(* DecRef: refcount--; if it is not 0 return (still referenced, or already destroyed);
+   else delete(conn.fidpool, fid.fid); FidDestroy *)
 Definition decref (t : ftab) (k : N) : ftab * list event :=
   match fget t k with
   | Some r =>
     let n := (f_ref r - 1)%Z in
-    if (0 <? n)%Z then (fset t k (mkFid n (f_opened r) (f_omode r) (f_type r) (f_user r) (f_diroff r)), [])
+    if negb (n =? 0)%Z then (fset t k (mkFid n (f_opened r) (f_omode r) (f_type r) (f_user r) (f_diroff r)), [])
     else (fdel t k, [EvDestroy k])
   | None => (t, [])
   end.
